@@ -205,14 +205,34 @@ type link struct {
 
 func (l *link) run() {
 	defer close(l.done)
+	cutDir := dirNone
 	if l.plan.dir != dirNone && l.plan.k <= 0 && !l.plan.corrupt {
 		l.cut(true)
-		return
+		if l.plan.mode != modeHalf {
+			return
+		}
+		// half cut before the first byte: nothing is forwarded in the cut direction, the other
+		// direction keeps flowing until the peers react
+		cutDir = l.plan.dir
 	}
 	var wg sync.WaitGroup
 	wg.Add(2)
-	go func() { defer wg.Done(); l.pump(dirC2S, l.c, l.s) }()
-	go func() { defer wg.Done(); l.pump(dirS2C, l.s, l.c) }()
+	go func() {
+		defer wg.Done()
+		if cutDir == dirC2S {
+			l.discard(l.c)
+			return
+		}
+		l.pump(dirC2S, l.c, l.s)
+	}()
+	go func() {
+		defer wg.Done()
+		if cutDir == dirS2C {
+			l.discard(l.s)
+			return
+		}
+		l.pump(dirS2C, l.s, l.c)
+	}()
 	wg.Wait()
 	l.c.Close()
 	l.s.Close()
